@@ -714,6 +714,14 @@ func structFieldConsts(v ssa.Value, f int, d int) ([]string, bool) {
 // paramConsts: the constants passed for parameter prm at every static call site of its function in the
 // reachable code; ok is false when some site passes a non-constant or there is no site.
 func paramConsts(p *Prog, prm *ssa.Parameter) ([]*ssa.Const, bool) {
+	return paramConstsRec(p, prm, map[*ssa.Parameter]bool{})
+}
+
+func paramConstsRec(p *Prog, prm *ssa.Parameter, seen map[*ssa.Parameter]bool) ([]*ssa.Const, bool) {
+	if seen[prm] {
+		return nil, true
+	}
+	seen[prm] = true
 	f := prm.Parent()
 	idx := -1
 	for i, fp := range f.Params {
@@ -725,6 +733,7 @@ func paramConsts(p *Prog, prm *ssa.Parameter) ([]*ssa.Const, bool) {
 		return nil, false
 	}
 	var out []*ssa.Const
+	sites := 0
 	for _, g := range p.RList {
 		for _, b := range g.Blocks {
 			for _, in := range b.Instrs {
@@ -732,15 +741,27 @@ func paramConsts(p *Prog, prm *ssa.Parameter) ([]*ssa.Const, bool) {
 				if !ok || ci.Common().StaticCallee() != f || idx >= len(ci.Common().Args) {
 					continue
 				}
-				c, ok := ci.Common().Args[idx].(*ssa.Const)
-				if !ok || c.Value == nil {
+				sites++
+				switch a := ci.Common().Args[idx].(type) {
+				case *ssa.Const:
+					if a.Value == nil {
+						return nil, false
+					}
+					out = append(out, a)
+				case *ssa.Parameter:
+					// forwarded from the caller's own parameter: the constants its call sites pass
+					cs, ok := paramConstsRec(p, a, seen)
+					if !ok {
+						return nil, false
+					}
+					out = append(out, cs...)
+				default:
 					return nil, false
 				}
-				out = append(out, c)
 			}
 		}
 	}
-	return out, len(out) > 0
+	return out, sites > 0 && len(out) > 0
 }
 
 // unwrapThunk: the in-module method a synthetic thunk / bound-method wrapper forwards to, else f itself.
